@@ -68,6 +68,11 @@ CLAIMED["C19"] = ("§3 C19",
     "Decides that the runtime's shared label table and import index are accessed only under their locks (write lock for writes) and that optimistic insertions re-check under the write lock, that no other package-level variable of the API import closure is written after init unless it is a sync/atomic type or reviewed, that caches are concurrency-safe types whose published values are written only by their constructors, that the shared structs hold no OpContext or Pool, and that package cue creates an OpContext only in newContext, fresh per call. It does not decide lazy finalisation of shared vertices under concurrent readers.",
     "alias-precise ownership of *adt.Vertex is out of reach (no pointer analysis)")
 
+CLAIMED["C17"] = ("§3 C17",
+    "capture discipline + lockset for every concurrently executed closure of the module loaders, map-iteration order-leak classification, CFG must-pass (Validate before Decode, re-parse before return), shared-implementation who-calls",
+    "Decides that closures run concurrently by modload/modpkgload/modrequirements write captured state only under a common mutex (or atomics, per-iteration variables, per-index slice elements), that no map iteration in these packages and in modfile feeds an unsorted order-sensitive sink, that modfile.parse decodes only values validated against the selected #File schema (selected as a maximum), that Format returns only bytes its own parse accepted, and that CheckTidy and Tidy share tidy/tidyOnce/equalRequirements. It does not decide that the fixpoint lists exactly the needed modules.",
+    "MVS and registry behaviour trusted")
+
 # properties not claimed (yet) -> reason
 NOT_APPLICABLE = {
     "C03": "value-level: the content is the cell values of the bound-simplification decision table over numbers; no shape rule separates a correct table from an off-by-one (DESIGN.md §4)",
